@@ -851,8 +851,13 @@ func ruleRequestAsserts(c *Ctx) {
 			case ob.Need == "gt0":
 				ok = f.gt0
 			case strings.HasPrefix(ob.Need, "eq:"):
-				other := fieldSource(s.Lit, strings.TrimPrefix(ob.Need, "eq:"), s.Pk.TypesInfo)
+				of := strings.TrimPrefix(ob.Need, "eq:")
+				other := fieldSource(s.Lit, of, s.Pk.TypesInfo)
 				ok = other != nil && exprString(other) == exprString(src)
+				// through a request-building helper the two sources are compared in the handler's terms
+				if a, b := s.Fields[ob.Field], s.Fields[of]; !ok && a != "" && a == b {
+					ok = true
+				}
 			}
 			c.check(ok, key, src.Pos(), fmt.Sprintf("%s ← %s satisfies `%s`", ob.Field, exprString(src), ob.Text),
 				fmt.Sprintf("%s %s feeds %s.%s from %s with no validation that implies `%s` before the request is submitted; the %s coroutine asserts it on the kernel goroutine, where a failed assertion terminates the server", s.Proto, s.Handler, ob.Kind, ob.Field, exprString(src), ob.Text, ob.Kind))
@@ -877,6 +882,16 @@ func fieldSource(lit *ast.CompositeLit, path string, info *types.Info) ast.Expr 
 		}
 		if inner, ok := v.(*ast.CompositeLit); ok {
 			return fieldSource(inner, parts[1], info)
+		}
+		// the nested request is built by a helper of the front end
+		if hc, ok := v.(*ast.CallExpr); ok && curProgram != nil {
+			for _, pk := range curProgram.Roots {
+				if pk.TypesInfo == info {
+					if hl := helperLiteral(pk, hc); hl != nil {
+						return fieldSource(hl, parts[1], info)
+					}
+				}
+			}
 		}
 	}
 	return nil
@@ -963,7 +978,6 @@ func ruleCursorVerified(c *Ctx) {
 	}
 	c.check(nParse >= 1, "cursor/decode-path", 0, "one verified decode path", "no cursor decode path found")
 }
-
 
 // rulePbNil (gRPC): protobuf sub-messages are pointers that a client may leave unset; direct field
 // access through one (as opposed to the nil-safe getters) must be nil-guarded. The handler's own
@@ -1099,7 +1113,6 @@ func exprGuarded(root ast.Node, site ast.Node, xs string) bool {
 	return false
 }
 
-
 // ruleUnwrapNil: the error renderers of the front ends must not call a method on the result of
 // Unwrap without a nil test (kernel errors created with a nil cause are common: queue full,
 // shutting down).
@@ -1173,7 +1186,6 @@ func ruleUnwrapNil(c *Ctx) {
 	c.count("unwrapped_cause_uses", n)
 	c.floor("uses of an unwrapped cause", n, 1)
 }
-
 
 // ruleUseBeforeErrCheck: a pointer returned together with an error must not be dereferenced before
 // the error has been tested (url.Parse, json decoders, … return nil with the error).
@@ -1499,4 +1511,281 @@ func ruleZeroValueLocals(c *Ctx) {
 	}
 	c.count("valueless_locals", n)
 	c.floor("locals declared without a value", n, 20)
+}
+
+// ruleRequestUnionAccess (C13/C15): t_api.Request is a tagged union — only the member named after
+// its Kind is set. A coroutine registered for kind K may therefore select only `r.K`; a helper that
+// receives the request may select `r.M` only under a test `r.Kind == M` (if / switch case). Any other
+// member is nil for this request and selecting a field of it panics on the kernel goroutine.
+func ruleRequestUnionAccess(c *Ctx) {
+	m := c.coroModel()
+	if m.Err != nil {
+		c.und("model", 0, m.Err.Error())
+		return
+	}
+	info := m.Pk.TypesInfo
+	n := 0
+	for _, name := range m.Order {
+		cf := m.Funcs[name]
+		// the request parameter(s)
+		var reqs []types.Object
+		for _, fl := range cf.Decl.Type.Params.List {
+			for _, nm := range fl.Names {
+				if o := info.Defs[nm]; o != nil {
+					if p, ok := o.Type().(*types.Pointer); ok && isNamed(p.Elem(), pkgTApi, "Request") {
+						reqs = append(reqs, o)
+					}
+				}
+			}
+		}
+		if len(reqs) == 0 {
+			continue
+		}
+		allowed := map[string]bool{}
+		for _, k := range cf.Kinds {
+			allowed[k] = true
+		}
+		if len(cf.Kinds) == 0 {
+			allowed[name] = true // not registered by the server (Echo): named after its kind
+		}
+		env := cf.Env
+		occ := map[string]int{}
+		ast.Inspect(cf.Decl.Body, func(nd ast.Node) bool {
+			se, ok := nd.(*ast.SelectorExpr)
+			if !ok {
+				return true
+			}
+			id, ok := ast.Unparen(se.X).(*ast.Ident)
+			if !ok {
+				return true
+			}
+			isReq := false
+			for _, r := range reqs {
+				if info.Uses[id] == r {
+					isReq = true
+				}
+			}
+			if !isReq {
+				return true
+			}
+			sel := info.Selections[se]
+			if sel == nil || sel.Kind() != types.FieldVal {
+				return true
+			}
+			p, ok := sel.Type().(*types.Pointer)
+			if !ok || namedPkgPath(p.Elem()) != pkgTApi || !strings.HasSuffix(namedName(p.Elem()), "Request") {
+				return true
+			}
+			member := se.Sel.Name
+			n++
+			occ[member]++
+			key := fmt.Sprintf("request-union/%s/%s", name, member)
+			if occ[member] > 1 {
+				key += fmt.Sprintf("#%d", occ[member])
+			}
+			good := allowed[member] && len(allowed) == 1 // registered for several kinds: the Kind must be tested
+			if !good {
+				want := "(" + env.prov(&ast.SelectorExpr{X: id, Sel: ast.NewIdent("Kind")}) + " == " + member + ")"
+				for _, a := range env.enclosingConds(cf.Decl.Body, se) {
+					if a == want || strings.HasSuffix(a, ".Kind == "+member+")") || strings.HasSuffix(a, "Kind == "+member+")") {
+						good = true
+					}
+				}
+			}
+			c.check(good, key, se.Pos(), "selects the member of its own kind", fmt.Sprintf("%s selects %s.%s, but it is registered for %v (and no test of the request's Kind governs the selection): for its requests that member is nil and the selection panics on the kernel goroutine", name, id.Name, member, cf.Kinds))
+			return true
+		})
+	}
+	c.count("request_union_accesses", n)
+	c.floor("selections of a request union member", n, 60)
+}
+
+// ruleStoreResultUnion (C13/C16/C17): inside the store packages a handler sometimes calls another
+// handler and inspects its *t_aio.Result (create-promise-and-task looks at the promise insert's row
+// count). The Result is a tagged union: the member selected must be one the called handler sets in
+// the result literal(s) it returns; any other member is nil and selecting a field of it panics on
+// the store worker goroutine.
+func ruleStoreResultUnion(c *Ctx) {
+	n := 0
+	for _, pp := range []string{pkgSqlite, pkgPostgres} {
+		pk := c.P.Pkg(pp)
+		if pk == nil {
+			c.und("store-result-union/"+pp, 0, "package not loaded")
+			continue
+		}
+		info := pk.TypesInfo
+		// members set by each function's returned Result literals
+		setBy := map[*types.Func]map[string]bool{}
+		for _, fd := range allFuncDecls(pk) {
+			fn, ok := info.Defs[fd.Name].(*types.Func)
+			if !ok || fd.Body == nil {
+				continue
+			}
+			ast.Inspect(fd.Body, func(nd ast.Node) bool {
+				cl, ok := nd.(*ast.CompositeLit)
+				if !ok || !isNamed(info.Types[cl].Type, pkgTAio, "Result") {
+					return true
+				}
+				for _, el := range cl.Elts {
+					if kv, ok := el.(*ast.KeyValueExpr); ok && exprString(kv.Key) != "Kind" {
+						if setBy[fn] == nil {
+							setBy[fn] = map[string]bool{}
+						}
+						setBy[fn][exprString(kv.Key)] = true
+					}
+				}
+				return true
+			})
+		}
+		for _, fd := range allFuncDecls(pk) {
+			if fd.Body == nil || isTestFile(c.P, fd.Pos()) {
+				continue
+			}
+			env := newLocalEnv(pk, fd, nil)
+			occ := map[string]int{}
+			ast.Inspect(fd.Body, func(nd ast.Node) bool {
+				se, ok := nd.(*ast.SelectorExpr)
+				if !ok {
+					return true
+				}
+				id, ok := ast.Unparen(se.X).(*ast.Ident)
+				if !ok {
+					return true
+				}
+				v, ok := info.Uses[id].(*types.Var)
+				if !ok || v.IsField() {
+					return true
+				}
+				if p, isPtr := v.Type().(*types.Pointer); !isPtr || !isNamed(p.Elem(), pkgTAio, "Result") {
+					return true
+				}
+				sel := info.Selections[se]
+				if sel == nil || sel.Kind() != types.FieldVal {
+					return true
+				}
+				if _, isPtr := sel.Type().(*types.Pointer); !isPtr {
+					return true // Kind
+				}
+				// the handler call(s) that define the variable
+				var producers []*types.Func
+				for _, d := range env.defs[v] {
+					as, ok := d.(*ast.AssignStmt)
+					if !ok || len(as.Rhs) != 1 {
+						continue
+					}
+					if call, ok := ast.Unparen(as.Rhs[0]).(*ast.CallExpr); ok {
+						if fn, ok := calleeOf(info, call).(*types.Func); ok && fn.Pkg() == pk.Types {
+							producers = append(producers, fn)
+						}
+					}
+				}
+				if len(producers) == 0 {
+					return true
+				}
+				n++
+				member := se.Sel.Name
+				occ[member]++
+				key := fmt.Sprintf("store-result-union/%s.%s/%s", pk.Name, funcName(fd), member)
+				if occ[member] > 1 {
+					key += fmt.Sprintf("#%d", occ[member])
+				}
+				good := true
+				for _, fn := range producers {
+					if !setBy[fn][member] {
+						good = false
+					}
+				}
+				c.check(good, key, se.Pos(), "selects a member the called handler sets", fmt.Sprintf("%s selects %s.%s, but the handler that produced %s sets %v: the member is nil and the selection panics on the store worker goroutine (the whole batch fails, on this backend only)", funcName(fd), id.Name, member, id.Name, keysOf(setBy[producers[0]])))
+				return true
+			})
+		}
+	}
+	c.count("store_result_union_accesses", n)
+	c.floor("selections of a handler's result member in the store packages", n, 2)
+}
+
+func keysOf(m map[string]bool) []string {
+	var out []string
+	for k := range m {
+		out = append(out, k)
+	}
+	sort.Strings(out)
+	return out
+}
+
+// ruleCompletionStateValidated (C01/C04/C15): the state a client asks a promise to be completed
+// with is one of Resolved / Rejected / Canceled at every front-end site: a constant of that set
+// (gRPC has one handler per state), or a bound value that an early exit rejects unless it is in
+// exactly that set. The coroutine writes the requested state as it is: `PENDING` or a time-out state
+// accepted from a client would "complete" a promise into a state the state machine does not have.
+func ruleCompletionStateValidated(c *Ctx) {
+	sites := append(frontEndRequests(c.P, "http", pkgHttp), frontEndRequests(c.P, "grpc", pkgGrpc)...)
+	allowed := map[string]bool{"Resolved": true, "Rejected": true, "Canceled": true}
+	n := 0
+	occ := map[string]int{}
+	for _, s := range sites {
+		if s.Kind != "CompletePromise" || s.Lit == nil {
+			continue
+		}
+		n++
+		info := s.Pk.TypesInfo
+		key := "completion-state/" + s.Proto + "." + s.Handler
+		occ[key]++
+		if occ[key] > 1 {
+			key += fmt.Sprintf("#%d", occ[key])
+		}
+		src := fieldSource(s.Lit, "State", info)
+		if src == nil {
+			c.bad(key, s.Pos, s.Proto+" "+s.Handler+" submits a completion without a state")
+			continue
+		}
+		ok := false
+		if cn := constText(info, src); cn != "" {
+			ok = allowed[cn]
+		} else {
+			want := exprString(ast.Unparen(src))
+			ast.Inspect(s.Decl.Body, func(nd ast.Node) bool {
+				ifs, isIf := nd.(*ast.IfStmt)
+				if !isIf || ifs.Pos() > s.Process.Pos() || !terminates(ifs.Body.List) {
+					return true
+				}
+				u, isNot := ast.Unparen(ifs.Cond).(*ast.UnaryExpr)
+				if !isNot || u.Op != token.NOT {
+					return true
+				}
+				call, isCall := ast.Unparen(u.X).(*ast.CallExpr)
+				if !isCall || len(call.Args) != 1 {
+					return true
+				}
+				se, isSel := ast.Unparen(call.Fun).(*ast.SelectorExpr)
+				if !isSel || se.Sel.Name != "In" || exprString(ast.Unparen(se.X)) != want {
+					return true
+				}
+				got := map[string]bool{}
+				ast.Inspect(call.Args[0], func(x ast.Node) bool {
+					if e, isE := x.(ast.Expr); isE {
+						if cn := constText(info, e); cn != "" {
+							if _, isSelector := x.(*ast.SelectorExpr); isSelector {
+								got[cn] = true
+							}
+						}
+					}
+					return true
+				})
+				same := len(got) == len(allowed)
+				for k := range allowed {
+					if !got[k] {
+						same = false
+					}
+				}
+				if same {
+					ok = true
+				}
+				return true
+			})
+		}
+		c.check(ok, key, src.Pos(), "the requested state is Resolved, Rejected or Canceled", fmt.Sprintf("%s %s submits the completion state %s without rejecting everything but Resolved / Rejected / Canceled first: the coroutine writes the requested state as it is", s.Proto, s.Handler, exprString(src)))
+	}
+	c.count("completion_request_sites", n)
+	c.floor("front-end sites submitting a completion", n, 4)
 }
